@@ -120,4 +120,92 @@ Section Sizing.
     intros (Hpad & Hbor & Hpb & Hmin & Hmax & Hpref & Hgut & Hinset & Hga & Hout & Hinn) (_ & _ & _ & Hkn & _) Hcs Hrs.
     unfold container_size, pair_rel. cbn [fst snd]. unfold_lifts. hm k Hk.
   Qed.
+
+  (* ---- steps 6-7 of compute_grid_layout *)
+  Notation VZ := (pair_rel (sized_rel k) (@eq bool)).
+  Lemma rel_mkSized s s' bb bb' cb cb' (b : bool) :
+    sstate_rel k s s' -> sz_rel L bb bb' -> sz_rel L cb cb' -> ProgRel k VZ (PRet (mkSized s bb cb, b)) (PRet (mkSized s' bb' cb', b)).
+  Proof. intros Hs Hbb Hcb. constructor. split; cbn [fst snd]; [|reflexivity]. unfold sized_rel. cbn [z_state z_border_box z_content_box]. auto. Qed.
+
+  Lemma rel_rerun_step ax (c : bool) inner inner' ot ot' oadj oadj' s s' :
+    sz_rel O inner inner' -> tracks_rel k ot ot' -> L oadj oadj' -> sstate_rel k s s' ->
+    ProgRel k (pair_rel (@eq bool) (sstate_rel k))
+      (if c then PRet (true, ss_set_items s (map (clear_axis_caches ax) (ss_items s)))
+       else pbind (m_rerun_any ax inner ot oadj (ss_items s)) (fun '(b, items') => PRet (b, ss_set_items s items')))
+      (if c then PRet (true, ss_set_items s' (map (clear_axis_caches ax) (ss_items s')))
+       else pbind (m_rerun_any ax inner' ot' oadj' (ss_items s')) (fun '(b, items') => PRet (b, ss_set_items s' items'))).
+  Proof.
+    intros Hin Hot Hadj Hs. pose proof (rel_ss_items _ _ Hs) as Hit. destruct c.
+    - constructor. split; cbn [fst snd]; [reflexivity|]. apply rel_ss_set_items; [exact Hs|].
+      apply (rel_map (gitem_rel k) (gitem_rel k)); [|exact Hit]. intros g g' Hg. apply rel_clear_axis_caches. exact Hg.
+    - eapply pbind_rel with (RA := pair_rel eq (Forall2 (gitem_rel k))).
+      { apply (rel_m_rerun_any k Hk); assumption. }
+      intros [b it] [b' it'] [Eb Hit']. cbn [fst snd] in Eb, Hit'. subst b'. constructor. split; cbn [fst snd]; [reflexivity|].
+      apply rel_ss_set_items; assumption.
+  Qed.
+
+  Lemma rel_m_size_grid st st' P P' i i' s0 s0' :
+    gstyle_wrel k st st' -> pre_rel k P P' -> fin_rel k i i' -> sstate_rel k s0 s0' ->
+    ProgRel k VZ (m_size_grid st P i s0) (m_size_grid st' P' i' s0').
+  Proof.
+    intros Hst HP Hi Hs0. unfold m_size_grid. ws_open Hst.
+    pose proof HP as (Hpad & Hbor & Hpb & Hmin & Hmax & Hpref & Hgut & Hinset & Hga & Hout & Hinn).
+    pose proof Hi as (Emode & _ & _ & Hkn & _ & Hgav & _).
+    rewrite Walc, Wjc, Emode, (rel_has_baseline _ _ (rel_ss_items _ _ Hs0)).
+    destruct Hmin as [Hminw Hminh], Hmax as [Hmaxw Hmaxh].
+    pose proof Hga as [Hgaw Hgah]. pose proof Hgav as [Hgavw Hgavh]. pose proof Hinn as [Hinw Hinh].
+    rewrite (rel_avail_is_definite _ _ Hgaw), (rel_avail_is_definite _ _ Hgah), (rel_avail_is_definite _ _ Hgavw), (rel_avail_is_definite _ _ Hgavh).
+    cbv zeta.
+    set (jc := opt_unwrap_or (gs_justify_content st) AStretch). set (ac := opt_unwrap_or (gs_align_content st) AStretch).
+    set (hb := existsb (fun g => ai_is_baseline (g_align g)) (ss_items s0)).
+    eapply pbind_rel with (RA := sstate_rel k).
+    { apply rel_m_track_sizing; assumption. }
+    intros s1 s1' Hs1. pose proof Hs1 as (Hc1 & Hr1 & Hac1 & Har1 & Hi1).
+    pose proof (rel_base_sizes k _ _ Hc1) as Hics.
+    set (ics := fsum (map base_size (ss_cols s1))) in *. set (ics' := fsum (map base_size (ss_cols s1'))) in *.
+    assert (Hin1 : sz_rel O (mkSize (opt_or (width (p_inner P)) (Some ics)) (height (p_inner P)))
+                            (mkSize (opt_or (width (p_inner P')) (Some ics')) (height (p_inner P')))).
+    { split; cbn [width height]; [apply rel_opt_or; [exact Hinw|exact Hics]|exact Hinh]. }
+    set (inner1 := mkSize (opt_or (width (p_inner P)) (Some ics)) (height (p_inner P))) in *.
+    set (inner1' := mkSize (opt_or (width (p_inner P')) (Some ics')) (height (p_inner P'))) in *.
+    eapply pbind_rel with (RA := sstate_rel k).
+    { apply rel_m_track_sizing; try assumption. apply rel_ss_set_items; [exact Hs1|].
+      apply (rel_map (gitem_rel k) (gitem_rel k)); [|exact Hi1]. intros g g' Hg. apply rel_set_ic_avail; [exact Hg|exact I]. }
+    intros s2 s2' Hs2. pose proof Hs2 as (Hc2 & Hr2 & Hac2 & Har2 & Hi2).
+    pose proof (rel_base_sizes k _ _ Hr2) as Hirs.
+    set (irs := fsum (map base_size (ss_rows s2))) in *. set (irs' := fsum (map base_size (ss_rows s2'))) in *.
+    assert (Hin2 : sz_rel O (mkSize (width inner1) (opt_or (height inner1) (Some irs))) (mkSize (width inner1') (opt_or (height inner1') (Some irs')))).
+    { destruct Hin1 as [H1w H1h]. split; cbn [width height]; [exact H1w|apply rel_opt_or; [exact H1h|exact Hirs]]. }
+    set (inner2 := mkSize (width inner1) (opt_or (height inner1) (Some irs))) in *.
+    set (inner2' := mkSize (width inner1') (opt_or (height inner1') (Some irs'))) in *.
+    pose proof (rel_container_size P P' i i' _ _ _ _ HP Hi Hics Hirs) as Hcz.
+    destruct (container_size P i ics irs) as [bb cb], (container_size P' i' ics' irs') as [bb' cb'].
+    destruct Hcz as [Hbb Hcb]. cbn [fst snd] in Hbb, Hcb.
+    assert (Hc3 : tracks_rel k (if avail_is_definite (width (p_grid_avail P)) then ss_cols s2 else reresolve_percent (width cb) (ss_cols s2))
+                               (if avail_is_definite (width (p_grid_avail P)) then ss_cols s2' else reresolve_percent (width cb') (ss_cols s2'))).
+    { destruct (avail_is_definite (width (p_grid_avail P))); [exact Hc2|apply (rel_reresolve_percent k Hk); [apply Hcb|exact Hc2]]. }
+    assert (Hr3 : tracks_rel k (if avail_is_definite (height (p_grid_avail P)) then ss_rows s2 else reresolve_percent (height cb) (ss_rows s2))
+                               (if avail_is_definite (height (p_grid_avail P)) then ss_rows s2' else reresolve_percent (height cb') (ss_rows s2'))).
+    { destruct (avail_is_definite (height (p_grid_avail P))); [exact Hr2|apply (rel_reresolve_percent k Hk); [apply Hcb|exact Hr2]]. }
+    set (cols3 := if avail_is_definite (width (p_grid_avail P)) then ss_cols s2 else _) in *.
+    set (cols3' := if avail_is_definite (width (p_grid_avail P)) then ss_cols s2' else _) in *.
+    set (rows3 := if avail_is_definite (height (p_grid_avail P)) then ss_rows s2 else _) in *.
+    set (rows3' := if avail_is_definite (height (p_grid_avail P)) then ss_rows s2' else _) in *.
+    pose proof (rel_mkSS _ _ _ _ _ _ _ _ _ _ Hc3 Hr3 Hac2 Har2 Hi2) as Hs3.
+    rewrite (rel_has_percentage _ _ Hc3).
+    destruct (qi_mode i); [|apply rel_mkSized; assumption|].
+    all: (eapply pbind_rel with (RA := pair_rel eq (sstate_rel k));
+      [ apply (rel_rerun_step Inline _ inner2 inner2' rows3 rows3' _ _ _ _ Hin2 Hr3 Har2 Hs3) |]);
+      intros [rr s4] [rr' s4'] [Err Hs4]; cbn [fst snd] in Err, Hs4; subst rr';
+      (destruct rr; [|apply rel_mkSized; assumption]);
+      (eapply pbind_rel with (RA := sstate_rel k); [apply rel_m_track_sizing; assumption|]);
+      intros s5 s5' Hs5; pose proof Hs5 as (Hc5 & Hr5 & Hac5 & Har5 & Hi5);
+      rewrite (rel_has_percentage _ _ Hr5);
+      (eapply pbind_rel with (RA := pair_rel eq (sstate_rel k));
+      [ apply (rel_rerun_step Block _ inner2 inner2' _ _ _ _ _ _ Hin2 Hc5 Hac5 Hs5) |]);
+      intros [rr2 s6] [rr2' s6'] [Err2 Hs6]; cbn [fst snd] in Err2, Hs6; subst rr2';
+      (destruct rr2; [|apply rel_mkSized; assumption]);
+      (eapply pbind_rel with (RA := sstate_rel k); [apply rel_m_track_sizing; assumption|]);
+      intros s7 s7' Hs7; apply rel_mkSized; assumption.
+  Qed.
 End Sizing.
